@@ -100,6 +100,20 @@ def run(chk):
             if l.startswith('rdpnegenc') and m.startswith('OK '):
                 ty = l.split(' ')[1]
                 ov += ['rdpnegdec %s %s' % (ty, m[3:]), 'rdpnegdec %s %s' % (ty, m[3:] + 'ffff'), 'rdpnegdec %s %s' % ('2' if ty == '1' else '1', m[3:])]
+        # the transport wrappers in the decode direction: a TPKT / MySQL packet / OpenVPN-over-TCP packet of the specification, alone
+        # and followed by the beginning of the next packet, gives back its payload and consumes exactly the declared length
+        wrap = []
+        for l, m in zip(lines, model_out):
+            unit = {'tpktenc': 'tpkt', 'mysqlpktenc': 'mysql', 'ovpntcp': 'ovpn'}.get(l.split(' ')[0])
+            if unit and m.startswith('OK '):
+                wrap += ['pframe %s %s' % (unit, m[3:]), 'pframe %s %s' % (unit, m[3:] + '0300'), 'pframe %s %s' % (unit, m[3:] + 'a1b2c3d4e5')]
+        for l, m in zip(wrap, common.run_model(wrap)):
+            i = impl.impl_line(l)
+            if m != i and nv < 10:
+                nv += 1
+                chk.violation('parsing a conformant transport packet (alone or followed by more bytes) does not give its payload and length: "%s": implementation %s, specification %s' % (l[:80], i[:100], m[:100]),
+                              {'cmd': l, 'impl': i, 'spec': m}, None, True)
+        chk.coverage['wrappers_decoded'] = len(wrap)
         for l, m in zip(ov, common.run_model(ov)):
             m = 'REFUSED' if m == 'NONE' else m
             i = impl.impl_line(l)
